@@ -32,10 +32,7 @@ Theorem C05_safe_text : forall y, safe_raw y = true ->
   (forall c, forbidden c = true -> ~ In c y) /\
   (forall pre post, y = pre ++ c_amp :: post -> exists e, In e entities /\ prefixb (fst e) post = true) /\
   containsb (s "]]>") y = false.
-Proof.
-  intros y H. split; [intros c F; exact (safe_no_char y c H F)|].
-  split; [exact (safe_amp_entity y H)|exact (safe_no_cdata_end y H)].
-Qed.
+Proof. exact safe_text_l. Qed.
 Print Assumptions C05_safe_text.
 
 (* ---------------- the Map encoder: each value is escaped exactly once iff XMLEscapeChars ---------------- *)
@@ -46,7 +43,7 @@ Theorem C05_no_double_escape : forall o x key,
   attr_text o (VStr x) = Some (esc o x) /\
   text_text o (VStr x) = esc o x /\
   esc o x = (if xmlEscapeChars o then escape_chars x else x).
-Proof. intros o x key. split; [apply enc_string_leaf|]. repeat split. Qed.
+Proof. exact no_double_escape_l. Qed.
 Print Assumptions C05_no_double_escape.
 
 (* the whole Map: with XMLEscapeChars on, every text Map.Xml writes is the once-escaped, safe text of
